@@ -109,6 +109,7 @@ def main():
   t0 = time.time()
   rng = np.random.default_rng(args.seed)
   runs = []
+  drifted = []
   batch = numeric.Batch()
   outcomes = {}
   for k in chosen:
@@ -130,7 +131,12 @@ def main():
     if diffs:
       chk.note("spec-drift scenario %s: %s" % (k, "; ".join(diffs)[:200]))
     outcomes[impl["outcome"] + ":" + impl["why"]] = outcomes.get(impl["outcome"] + ":" + impl["why"], 0) + 1
-    if impl["outcome"] != "done" or diffs:
+    if impl["outcome"] != "done":
+      continue
+    if diffs:
+      # the implementation left the specification's predicted path (e.g. it returned where a rejection was predicted): no
+      # symbolic parameters to resolve, but the relational predicates are still evaluated on what it returned
+      drifted.append({"key": k, "scn": scn, "codes": info["codes"], "impl": impl})
       continue
     ctx = numeric.Ctx(scn, impl)
     run = {"key": k, "scn": scn, "codes": info["codes"], "ctx": ctx, "dump": d, "tensors": [], "impl": impl}
@@ -258,8 +264,17 @@ def main():
     o = pipeline.obs_record(0, run["scn"], run["ctx"].in_proj, run["ctx"].out_proj)
     obs.append(o)
     idx[i] = len(obs)
+  for j, dr in enumerate(drifted):
+    o = pipeline.obs_record(0, dr["scn"], project.project(dr["impl"]["in_bytes"]), project.project(dr["impl"]["out_bytes"]))
+    obs.append(o)
+    idx[len(runs) + j] = len(obs)
   verdicts, ro = pipecheck.observe_with_tlc("%s_observed" % prop, obs)
   clause = {"C04": "params", "C05": "bytes", "C15": "bytes"}[prop]
+  for j, dr in enumerate(drifted):
+    v = verdicts.get(idx[len(runs) + j])
+    if v is not None and (not v[clause] or not v["inrange"]):
+      chk.violation("%s false on the observed output of scenario %s (which also left the specification's predicted path)" % (clause, dr["key"]),
+                    {"property": prop, "scenario": dr["scn"], "codes": dr["codes"], "seed": args.seed, "clause": clause, "verdict": v})
   for i, run in enumerate(runs):
     v = verdicts.get(idx[i])
     if v is None:
